@@ -277,8 +277,8 @@ def _timed(f, seconds):
 
 def impl(c, budget=CALL_CPU_S, retry=True, force=False):
     nodes, edges, H = build_case(c)
-    if NOANSWER[c["f"]] >= NOANSWER_CAP and not force:
-        return {"out": "skipped"}, nodes, edges
+    if NOANSWER[c["f"]] >= (2 * NOANSWER_CAP if force else NOANSWER_CAP):
+        return {"out": "skipped"}, nodes, edges       # (a forced call is granted NOANSWER_CAP further expiries, not more)
     with warnings.catch_warnings():
         warnings.simplefilter("ignore")
         try:
@@ -290,8 +290,7 @@ def impl(c, budget=CALL_CPU_S, retry=True, force=False):
                 nodes, edges, H = build_case(c)
                 v = _timed(lambda: call_impl(c, H), 5 * budget)
         except NoAnswer:
-            if not force:
-                NOANSWER[c["f"]] += 1
+            NOANSWER[c["f"]] += 1
             return {"out": "err:no-answer", "msg": f"no answer within {budget * (5 if retry else 1):g} s of CPU time"}, nodes, edges
         except Infra:
             raise
@@ -1043,9 +1042,12 @@ def call_on(c, H):
     """call_impl on a given live object under the CPU guard; exceptions are values"""
     with warnings.catch_warnings():
         warnings.simplefilter("ignore")
+        if NOANSWER[c["f"]] >= 2 * NOANSWER_CAP:
+            return {"out": "skipped"}                  # this function has not answered several times already in this run
         try:
             return {"out": "ok", "v": _timed(lambda: call_impl(c, H), 5 * CALL_CPU_S)}
         except NoAnswer:
+            NOANSWER[c["f"]] += 1
             return {"out": "err:no-answer", "msg": "no answer within the CPU budget"}
         except Infra:
             raise
